@@ -1,6 +1,6 @@
 SPECIFICATION SSpec
 CONSTANTS
-  NCalls = 30
+  NCalls = 32
   MaxLen = 12
 CONSTRAINT Emit
 INVARIANT NeverTouched
